@@ -24,8 +24,8 @@ from harness import httpr_check as H
 QUICK_GEN = {"RLs": "{1, 2, 3, 4, 7, 19}", "HOSTs": "{1, 2, 4, 5}", "FRs": "{1, 2, 3, 5, 9, 11, 17}",
              "FR2s": "{1, 3, 5}", "XHs": "{1, 3, 5}", "BLANKs": "{1, 2}", "BODYs": "{1, 2, 3, 4, 6, 9, 11, 18}",
              "TAILs": "{1, 2}", "Dev": 1}
-FULL = {"RLs": "1..20", "HOSTs": "1..14", "FRs": "1..27", "FR2s": "1..7", "XHs": "1..14", "BLANKs": "{1, 2}",
-        "BODYs": "1..26", "TAILs": "{1, 2, 3}"}
+FULL = {"RLs": "{1, 2, 3, 4, 5, 6, 7, 8, 9, 10, 11, 12, 13, 14, 15, 16, 17, 18, 19, 20}", "HOSTs": "{1, 2, 3, 4, 5, 6, 7, 8, 9, 10, 11, 12, 13, 14}", "FRs": "{1, 2, 3, 4, 5, 6, 7, 8, 9, 10, 11, 12, 13, 14, 15, 16, 17, 18, 19, 20, 21, 22, 23, 24, 25, 26, 27}", "FR2s": "{1, 2, 3, 4, 5, 6, 7}", "XHs": "{1, 2, 3, 4, 5, 6, 7, 8, 9, 10, 11, 12, 13, 14}", "BLANKs": "{1, 2}",
+        "BODYs": "{1, 2, 3, 4, 5, 6, 7, 8, 9, 10, 11, 12, 13, 14, 15, 16, 17, 18, 19, 20, 21, 22, 23, 24, 25, 26}", "TAILs": "{1, 2, 3}"}
 SERVER_ONLY = {"Modes": '{"server"}', "Responds": '{"sync"}', "Timeouts": "{FALSE}", "Shuts": "{FALSE}", "Heads": "{FALSE}"}
 
 
@@ -41,12 +41,12 @@ def run(ctx):
                    TAILs="{1, 2}", Dev=1)
     H.mc(ctx, "MC_HttpReader", "MC_HttpReader.cfg", overrides=big)
     # 2. spec -> code
-    gen = dict(QUICK_GEN) if ctx.quick else dict(FULL, Dev=2)
+    gen = dict(QUICK_GEN) if ctx.quick else dict(FULL, Dev=1)
     cases = H.gen_cases(ctx, gen)
     H.replay_server(ctx, cases)
     ctx.cov["exhaustive"] = True
     # 3. code -> spec
-    n = ctx.pick(200, 20000)
+    n = ctx.pick(200, 5000)
     jobs = [(i + 1, ctx.seed * 1000003 + i, H.BASE_CFG, "req") for i in range(n)]
     traces = framework.pool_map(H.record_random_server, jobs)
     H.validate(ctx, traces, H.classify_server)
